@@ -573,14 +573,15 @@ func Enumerate[T any](c *Ctx, part string, o Opts, gen func(yield func(T) bool),
 	}
 	if o.Serial || c.Workers() == 1 {
 		w := c.newW(part)
-		var i int64
+		var i, own int64
 		gen(func(x T) bool {
 			mine := c.Mine(i)
 			i++
 			if !mine {
 				return true
 			}
-			if i&63 == 0 && c.Expired() {
+			own++
+			if own&7 == 0 && c.Expired() {
 				return false
 			}
 			handle(w, x)
